@@ -315,8 +315,7 @@ impl BDF {
                 let factor = step_to_end / h_try;
                 change_d(&mut d, order, factor, &mut scratch_change);
                 current_h *= factor;
-                h_try = current_h;
-                h_signed = direction * h_try;
+                h_signed = xend - x;
                 x_new = x + h_signed;
                 n_equal_steps = 0;
                 lu_is_current = false;  // Step size changed
